@@ -8,14 +8,16 @@ from collections import defaultdict
 
 import vlib
 from gen import novel as GN
+from props import c04sim as SIM
 
 ID = "C04"
 PROPS = ["IsoVerif/Props/C04.lean", "IsoVerif/Props/C04Graph.lean", "IsoVerif/Props/C04Store.lean",
          "IsoVerif/Props/C04Paths.lean", "IsoVerif/Props/C03Paths.lean", "IsoVerif/Props/C04Join.lean",
-         "IsoVerif/Props/C04Terminals.lean", "IsoVerif/Props/C04Simplify.lean"]
+         "IsoVerif/Props/C04Terminals.lean", "IsoVerif/Props/C04Simplify.lean", "IsoVerif/Props/C04Similar.lean"]
 TARGETS = ["IsoVerif.Props.C04", "IsoVerif.Props.C04Graph", "IsoVerif.Props.C04Store", "IsoVerif.Props.C04Paths",
-           "IsoVerif.Props.C03Paths", "IsoVerif.Props.C04Join", "IsoVerif.Props.C04Terminals", "IsoVerif.Props.C04Simplify"]
-GEN_DEPS = ["Prims", "Enums", "Strategies", "Constants", "ModelConstruction"]
+           "IsoVerif.Props.C03Paths", "IsoVerif.Props.C04Join", "IsoVerif.Props.C04Terminals", "IsoVerif.Props.C04Simplify",
+           "IsoVerif.Props.C04Similar"]
+GEN_DEPS = ["Prims", "Enums", "Strategies", "Constants", "ModelConstruction", "EventClasses", "ComparatorTables"]
 LEVEL = "proof"
 RULE = ("in-process: seeded loci (exon lattice, annotated + unannotated isoforms, reads with splice-site jitter, truncation, "
         "multimappers, polyA flags; tiny loci with colliding introns) through the real IntronCollector / IntronGraph (traced "
@@ -25,7 +27,13 @@ RULE = ("in-process: seeded loci (exon lattice, annotated + unannotated isoforms
         "graph states, the real construct_fl_isoforms / pre_filter / filter / assign / dump on a constructor whose heuristics are "
         "stubbed with generated answers; a case is non-trivial when the model returns a non-error, non-empty value and equals the "
         "implementation; distinct by (op, input).  Pipeline: synthetic genomes with unannotated isoforms under several "
-        "--model_construction_strategy values, with and without --genedb, oracle on GTF / r2t / corrected BED")
+        "--model_construction_strategy values, with and without --genedb, oracle on GTF / r2t / corrected BED.  Growth "
+        "(props/c04sim.py): generated model storages (one or two exon chains; same chain with outer ends on the assigner's "
+        "thresholds, skipped / extra exon, shifted site, retained intron; known + novel, mono-exon, strands, reads with spans and "
+        "mapq; 3 % coordinates that make an intron start equal a vertex code) through the REAL detect_similar_isoforms, "
+        "pre_filter_transcripts, filter_transcripts (real GeneInfo.from_models / LongReadAssigner / CombinedProfileConstructor / "
+        "is_matching_assignment / correct_novel_transcript_ends; only the component-coverage functions stubbed) vs the model's "
+        "computed filter; exhaustive grid of same-chain pairs (20 x 20 end offsets x 2 strategies; quick: a third)")
 TRUSTED = ["heuristics consulted by the decision block are parameters of the model (assigner verdict per path, per-intron canonical "
            "strand, component coverage, detect_similar_isoforms, per-read mapq): theorems quantify over all their values",
            "tracing shims in harness/props/C04.py (dict subclasses, method wrappers) record the operations the real "
@@ -36,8 +44,9 @@ ASSUMPTIONS = ["CPython int semantics = Lean Int; set/dict iteration order does 
                "when the float ratio is a dyadic fraction)",
                "a dead-end walk of simplify() that returns to a vertex of its path never ends in the real code (model answer "
                "`cycle`; checked with a 1 s time limit)",
-               "is_matching_assignment / assigner verdicts, get_intron_strand, detect_similar_isoforms and the coverage "
-               "functions are inputs (assumption interface monitored by the pipeline oracle)",
+               "the assigner's verdict on a PATH in construct_fl_isoforms, get_intron_strand and the component-coverage functions "
+               "are inputs (assumption interface monitored by the pipeline oracle); detect_similar_isoforms is computed by the "
+               "model since the growth round (C01 assigner model composed; exact-rational scores as in C01)",
                "transcript ids in one storage are pairwise distinct (id allocation is property C17)"]
 
 
@@ -1831,6 +1840,8 @@ def correspondence(ctx):
     corr_correct_ends(ctx, 200 if q else 2000)
     corr_construct_fl(ctx, 400 if q else 4000)
     corr_store(ctx, 400 if q else 4000)
+    # growth: detect_similar_isoforms / filter_transcripts computed by the model (props/c04sim.py)
+    SIM.correspondence(ctx)
 
 
 # ---------------------------------------------------------------------------------------------------
@@ -2425,6 +2436,8 @@ def oracle(ctx, disagreements, broken):
             if len(ctx.failures) > 20:
                 break
     ctx.extra["oracle_inproc_cases"] = n
+    # growth: the clauses on the output of the REAL filter_transcripts (props/c04sim.py)
+    SIM.oracle(ctx, disagreements, broken)
     # 4. the real pipeline
     pipeline_oracle(ctx, 6 if ctx.tier == "quick" else 80)
 
@@ -2440,6 +2453,9 @@ def replay(ctx, failure):
         return any(k == failure["kind"] and c == inp.get("class", "") for k, c, _ in fails)
     if inp.get("level") == "tables":
         return oracle_tables() is not None
+    if inp.get("op") in ("sim_filter", "detect_similar"):
+        r = SIM.replay_case(inp["args"])
+        return bool(r) and r[0] == failure["kind"] and r[1] == inp.get("class", "")
     fn = INPROC.get(inp.get("op"))
     if fn is None:
         return False
